@@ -27,7 +27,12 @@ func (o c06kop) String() string { return fmt.Sprintf("%s(k%d)", o.kind, o.key) }
 func c06ApiKeys(s *sim.Sim, p *sim.Params) {
 	var sample []string
 	defer func() { s.Note("sample", sample) }()
-	keys := []string{"key-aaaa-1", "key-bbbb-2", "key-cccc-3", "key-aaaa-10"} // (one is a prefix of another)
+	// (one is a prefix of another; the last three differ only in surrounding white space, as keys
+	// read from a file with CRLF line ends or indentation do: they are issued and revoked under
+	// exactly these strings, and requests only ever present the clean one)
+	keys := []string{"key-aaaa-1", "key-bbbb-2", "key-cccc-3", "key-aaaa-10", "key-dddd-4", "key-dddd-4\r", "  key-dddd-4"}
+	const cleanKeys = 5
+	const variantMask = 1<<4 | 1<<5 | 1<<6
 	initial := 0
 	var static []string
 	for i, k := range keys {
@@ -60,6 +65,9 @@ func c06ApiKeys(s *sim.Sim, p *sim.Params) {
 		ops := make([]c06kop, n)
 		for i := range ops {
 			ops[i] = c06kop{kind: []string{"add", "remove", "request", "request"}[s.Choose(sim.SWork, 4)], key: s.Choose(sim.SWork, len(keys)), how: s.Choose(sim.SWork, 3)}
+			if ops[i].kind == "request" && ops[i].key >= cleanKeys {
+				ops[i].key = 4
+			}
 		}
 		ti := ti
 		hs = append(hs, s.Spawn(fmt.Sprintf("caller#%d", ti), func() {
@@ -112,6 +120,12 @@ func c06ApiKeys(s *sim.Sim, p *sim.Params) {
 				return true, st | 1<<o.key
 			case "remove":
 				return true, st &^ (1 << o.key)
+			}
+			if o.key == 4 && st&(1<<4) == 0 && st&variantMask != 0 {
+				// only a white-space variant of the presented key is in the set: whether the two
+				// strings name the same key is the validator's business; what it may not do is
+				// serve the key once every variant has been revoked
+				return true, st
 			}
 			return out.(bool) == (st&(1<<o.key) != 0), st
 		},
